@@ -144,7 +144,11 @@ func (i *interpreter) mkSym(t *Term, k types.BasicKind) value {
 	case "fpconst":
 		return t.F
 	case "realconst":
-		if t.ri != nil && t.ri.exact {
+		if isIntKind(k) {
+			if t.R.IsInt() && t.R.Num().IsInt64() {
+				return concreteOfKind(k, uint64(t.R.Num().Int64()))
+			}
+		} else if t.ri != nil && t.ri.exact {
 			f, _ := t.R.Float64()
 			return f
 		}
@@ -220,6 +224,9 @@ func (i *interpreter) symFloatBinop(op token.Token, x, y value) value {
 			}
 			return i.inexactArith(o, a, b)
 		case token.QUO:
+			if b.Op == "ite" && IteConstLeaves(b) {
+				b = i.resolveIte(b)
+			}
 			// division by zero gives Inf/NaN which the exact domain cannot carry
 			if b.Op == "realconst" {
 				if b.R.Sign() == 0 {
@@ -273,6 +280,19 @@ func (i *interpreter) symFloatBinop(op token.Token, x, y value) value {
 		return i.mkSym(st.FPCmp("fp.leq", b, a), types.Bool)
 	}
 	panic(fmt.Sprintf("symFloatBinop(fp): %s", op))
+}
+
+// resolveIte forks over the conditions of an ite tree with constant leaves
+// and returns the selected constant.
+func (i *interpreter) resolveIte(t *Term) *Term {
+	for t.Op == "ite" {
+		if i.decide(t.Args[0]) {
+			t = t.Args[1]
+		} else {
+			t = t.Args[2]
+		}
+	}
+	return t
 }
 
 func isRealConst(t *Term, v int64) bool {
@@ -480,6 +500,8 @@ func (i *interpreter) symBinop(op token.Token, t types.Type, x, y value) value {
 		case token.OR, token.LOR:
 			return i.mkSym(st.Or(a, b), types.Bool)
 		}
+	case isIntKind(k) && (realSorted(x) || realSorted(y)):
+		return i.intRealBinop(op, k, x, y)
 	case isIntKind(k):
 		a := i.bvTerm(x)
 		w := a.S.W
@@ -541,6 +563,50 @@ func (i *interpreter) symBinop(op token.Token, t types.Type, x, y value) value {
 		}
 	}
 	panic(unsupported{fmt.Sprintf("symbolic binary op: %T %s %T", x, op, y)})
+}
+
+func realSorted(v value) bool {
+	s, ok := v.(sym)
+	return ok && s.t.S.K == KReal
+}
+
+// intRealBinop: integers that were obtained from exact-domain floats
+// (int(math.Floor(x/w)) in the node set) are carried as exact reals; they only
+// take part in +, -, * and comparisons, and stay far below 2^63.
+func (i *interpreter) intRealBinop(op token.Token, k types.BasicKind, x, y value) value {
+	st := i.st
+	term := func(v value) *Term {
+		if s, ok := v.(sym); ok {
+			if s.t.S.K != KReal {
+				panic(unsupported{"bit-vector integer mixed with an exact-domain integer"})
+			}
+			return s.t
+		}
+		return st.RealOfFloat(float64(asInt64(v)))
+	}
+	a, b := term(x), term(y)
+	switch op {
+	case token.ADD, token.SUB, token.MUL:
+		o := map[token.Token]string{token.ADD: "+", token.SUB: "-", token.MUL: "*"}[op]
+		t, ok := st.RealArith(o, a, b)
+		if !ok {
+			panic(unsupported{"exact-domain integer arithmetic out of range"})
+		}
+		return i.mkSym(t, k)
+	case token.EQL:
+		return i.mkSym(st.Eq(a, b), types.Bool)
+	case token.NEQ:
+		return i.mkSym(st.Not(st.Eq(a, b)), types.Bool)
+	case token.LSS:
+		return i.mkSym(st.RealCmp("<", a, b), types.Bool)
+	case token.LEQ:
+		return i.mkSym(st.RealCmp("<=", a, b), types.Bool)
+	case token.GTR:
+		return i.mkSym(st.RealCmp("<", b, a), types.Bool)
+	case token.GEQ:
+		return i.mkSym(st.RealCmp("<=", b, a), types.Bool)
+	}
+	panic(unsupported{fmt.Sprintf("operator %s on an exact-domain integer", op)})
 }
 
 func (i *interpreter) symShift(op token.Token, k types.BasicKind, a *Term, y value) value {
@@ -627,6 +693,13 @@ func (i *interpreter) symConv(tDst types.Type, x sym) value {
 			return i.mkSym(st.SExt(x.t, w), dk)
 		}
 		return i.mkSym(st.ZExt(x.t, w), dk)
+	case isIntKind(x.k) && dk == types.Float64 && x.t.S.K == KReal:
+		return i.mkSym(x.t, dk)
+	case isIntKind(x.k) && isIntKind(dk) && x.t.S.K == KReal:
+		if kindWidth(dk) == 64 {
+			return sym{x.t, dk}
+		}
+		panic(unsupported{"narrowing of an exact-domain integer"})
 	case isIntKind(x.k) && dk == types.Float64:
 		if i.cfg.AbstractConv {
 			i.noteUF("i2f")
@@ -650,6 +723,9 @@ func (i *interpreter) symConv(tDst types.Type, x sym) value {
 		return x
 	case x.k == types.Float64 && isIntKind(dk):
 		if x.t.S.K == KReal {
+			if x.t.RealExact() && x.t.ri.s == 0 && (dk == types.Int || dk == types.Int64) {
+				return i.mkSym(x.t, dk) // an integral exact value: carried as an exact-domain integer
+			}
 			panic(unsupported{"EXACT-domain float converted to an integer"})
 		}
 		var t64 *Term
